@@ -505,6 +505,17 @@ func buildSurfaces(c *mc.Ctx) []surface {
 		guard(&o, func() { r, err := ecvrf.ProofToHash(d); o.accepted = err == nil && r != nil })
 		return
 	}})
+	add(surface{name: "ecvrf.ProveWithAddedRandomness(private key bytes)", size: 64, valid: sk, call: func(used bool, d []byte) (o outcome) {
+		guard(&o, func() {
+			p1, err := ecvrf.ProveWithAddedRandomness(bytes.NewReader(make([]byte, 64)), ed25519.PrivateKey(d), msg)
+			p2, err2 := ecvrf.ProveWithAddedRandomness_v10(bytes.NewReader(make([]byte, 64)), ed25519.PrivateKey(d), msg)
+			o.accepted = err == nil && p1 != nil
+			if (err == nil) != (err2 == nil) || (err != nil && (p1 != nil || p2 != nil)) {
+				panic("the two formats disagree about the key, or a failing call returned a proof")
+			}
+		})
+		return
+	}})
 	add(surface{name: "ecvrf.Verify(proof bytes)", size: 80, valid: pi, call: func(used bool, d []byte) (o outcome) {
 		guard(&o, func() {
 			ok, beta := ecvrf.Verify(pk, d, msg)
